@@ -103,17 +103,35 @@ def run_coqchk(vfile):
 def run_profile(run, workdir, model_ok):
     """Executes one harness profile: implementation side (hx), then the extracted model on the same history."""
     os.makedirs(workdir, exist_ok=True)
-    cmd = [os.path.join(BUILD, "hx"), run["profile"], "-seed", str(run["seed"]), "-n", str(run["n"]), "-out", workdir]
+    binary = "hxr" if run.get("race") else "hx"
+    cmd = [os.path.join(BUILD, binary), run["profile"], "-seed", str(run["seed"]), "-n", str(run["n"]), "-out", workdir]
     if run.get("replay"):
         cmd += ["-replay", run["replay"]]
     cmd += run.get("extra", [])
     t = time.time()
-    rc, out = sh(cmd, env=build.GOENV, timeout=run.get("timeout", 3000))
+    env = dict(build.GOENV)
+    if run.get("race"):
+        env["GORACE"] = "log_path=%s halt_on_error=0 exitcode=0" % os.path.join(workdir, "race")
+    rc, out = sh(cmd, env=env, timeout=run.get("timeout", 3000))
     res = {"profile": run["profile"], "seed": run["seed"], "n": run["n"], "impl_s": round(time.time() - t, 1)}
+    race_findings, race_stats = (parse_race_logs(workdir) if run.get("race") else ([], {}))
     if rc != 0:
-        res["harness_error"] = out[-3000:]
-        return res
-    res["monitor"] = json.load(open(os.path.join(workdir, "monitor.json")))
+        fatal = re.search(r"fatal error: [^\n]*", out)
+        if fatal and "panacea-core/v2/" in out:
+            race_findings.append({"clause": "C20-runtime-abort", "detail": "the Go runtime aborted the process: %s" % fatal.group(0),
+                                  "cmd": "hx %s -seed %s -n %s (stderr tail)\n%s" % (run["profile"], run["seed"], run["n"], out[-2500:])})
+        if not race_findings:
+            res["harness_error"] = out[-3000:]
+            return res
+        res["monitor"] = {"findings": [], "commands": 0, "stats": {"kinds": {}}, "samples": []}
+    else:
+        res["monitor"] = json.load(open(os.path.join(workdir, "monitor.json")))
+    if run.get("race"):
+        res["monitor"]["findings"] = (res["monitor"].get("findings") or []) + race_findings
+        res["monitor"].setdefault("stats", {}).setdefault("kinds", {}).update(race_stats)
+        if rc != 0 or not os.path.exists(os.path.join(workdir, "history.txt")):
+            res["model_error_skip"] = True
+            return res
     if model_ok:
         t = time.time()
         with open(os.path.join(workdir, "history.txt"), "rb") as fin, open(os.path.join(workdir, "model.txt"), "wb") as fout:
@@ -123,6 +141,45 @@ def run_profile(run, workdir, model_ok):
         if p.returncode != 0:
             res["model_error"] = p.stderr.decode(errors="replace")[-2000:]
     return res
+
+
+def _first_user_frame(lines):
+    """first frame of a race-report stack that is not Go runtime / standard library"""
+    for l in lines:
+        l = l.strip()
+        if not l or l.startswith("/") or l.startswith("Goroutine") or "()" not in l:
+            continue
+        fn = l.split("(")[0]
+        first = fn.split("/")[0]
+        if "." in first and "/" in fn:      # a module path such as github.com/...
+            return fn
+    return ""
+
+
+def parse_race_logs(workdir):
+    """Reads GORACE log files.  A report counts for C20 when the innermost non-runtime frame of one of the two
+    conflicting accesses is code of medibloc/panacea-core (races wholly inside the SDK or the harness are only counted)."""
+    findings, stats = [], {"race-reports": 0, "race-reports-sdk-internal": 0}
+    seen = set()
+    for f in sorted(glob.glob(os.path.join(workdir, "race.*"))):
+        text = open(f, errors="replace").read()
+        for rep in text.split("=================="):
+            if "DATA RACE" not in rep:
+                continue
+            stats["race-reports"] += 1
+            # the two access stacks: from the header line to the next blank line
+            stacks = re.findall(r"(?:Read|Write|Previous read|Previous write|Atomic read|Atomic write|Previous atomic read|Previous atomic write) at [^\n]*\n((?:  [^\n]*\n)+)", rep)
+            tops = [_first_user_frame(s.split("\n")) for s in stacks[:2]]
+            mine = [t for t in tops if "medibloc/panacea-core/v2/" in t]
+            if mine:
+                key = tuple(sorted(tops))
+                if key not in seen and len(findings) < 10:
+                    seen.add(key)
+                    findings.append({"clause": "C20-data-race", "detail": "data race (Go race detector): conflicting accesses in %s" % " and ".join(tops),
+                                     "cmd": rep.strip()[:6000]})
+            else:
+                stats["race-reports-sdk-internal"] += 1
+    return findings, stats
 
 
 def diff_observables(workdir, project=None, limit=20):
@@ -215,6 +272,13 @@ def run_check(spec, tier):
                     broken.append({"what": "coqchk rejected " + spec["vfile"], "log": cout})
             # ---- 3. correspondence + 4. monitors
             runs = spec["runs"](tier, seed)
+            if any(r.get("race") for r in runs):
+                try:
+                    with build.Lock():
+                        build.build_go_race(log)
+                except BuildError as e:
+                    broken.append({"what": "build: " + e.stage, "log": e.log[-3000:]})
+                    runs = [r for r in runs if not r.get("race")]
             if broken and tier == "quick":
                 runs = spec["runs"]("thorough", seed)  # search harder for a failing input
             for i, run in enumerate(runs):
@@ -228,7 +292,7 @@ def run_check(spec, tier):
                 # a monitor clause named after another claimed property is that property's to report
                 from .props import PROPS as _P
                 findings = [f for f in findings
-                            if not (re.match(r"C\d\d-", str(f.get("clause", ""))) and f["clause"][:3] != prop and f["clause"][:3] in _P)]
+                            if not (re.match(r"C\d\d-", str(f.get("clause", ""))) and f["clause"][:3] != prop)]
                 new_findings = []
                 for f in findings:
                     e = match_known(prop, f, known)
@@ -244,7 +308,9 @@ def run_check(spec, tier):
                                                           "profile": run["profile"], "seed": run["seed"],
                                                           "how": "bin/check replay <this file> re-executes the history on the real code"})
                     violations.append((path, False))
-                if model_ok and "model_error" not in r:
+                if r.get("model_error_skip") or run.get("nomodel"):
+                    pass
+                elif model_ok and "model_error" not in r:
                     n, mism, hist = diff_observables(wd, spec.get("project"))
                     r["compared"] = n
                     r["mismatches"] = len(mism)
